@@ -48,11 +48,13 @@ Definition mk_atom (a : Z * string * string) : atom := {| a_resid := fst (fst a)
 Definition feq3 (a b : float * float * float) : bool :=
   let '(a0, a1, a2) := a in let '(b0, b1, b2) := b in PrimFloat.eqb a0 b0 && PrimFloat.eqb a1 b1 && PrimFloat.eqb a2 b2.
 Definition run_case (tys : list (string * list (Z * string * string))) (entries : list (string * nat))
-                    (cli tbox : option (float * float * float)) (dens : option float) (mass : float) :=
+                    (cli tbox : option (float * float * float)) (dens : option float) (masses : list (option float * option float)) :=
   (option_map (map (fun r => (w_resid r, w_resname r, w_name r, w_idx r)))
      (gro_rows (map (fun t => (fst t, map mk_atom (snd t))) tys) entries (fun _ => tt)),
    init_box float (box_choice (float * float * float) float feq3 cli tbox dens)
-     (match dens with Some d => box_edge mass d | None => 0%float end)).
+     (match dens, total_mass PrimFloat.add 0%float (rev masses) with
+      | Some d, Some m => box_edge m d
+      | _, _ => 0%float end)).
 """
 
 
@@ -63,9 +65,22 @@ def gen_case(rng):
     for _ in range(rng.randint(1, 4)):
         entries.append((rng.choice(moltypes)['name'], rng.randint(1, 3)))
     mode = rng.choice(['box', 'dens', 'struct', 'struct+box', 'struct+dens', 'box+grid', 'dens'])
-    return {'moltypes': moltypes, 'molecules': entries, 'mode': mode, 'seed': rng.randrange(10 ** 6),
+    case = {'moltypes': moltypes, 'molecules': entries, 'mode': mode, 'seed': rng.randrange(10 ** 6),
             'L': round(rng.uniform(4.0, 6.0), 3), 'L2': round(rng.uniform(6.5, 7.5), 3), 'dens': round(rng.uniform(40.0, 160.0), 2),
             'nsup': rng.randint(1, 2), 'omit_mass': rng.random() < 0.2}
+    return vary_masses(rng, case)
+
+
+def vary_masses(rng, case):
+    """[ atoms ] masses that differ from the atom-type mass, and massless particles (virtual sites)"""
+    for mt in case['moltypes'][1 if case['omit_mass'] else 0:]:
+        for a in mt['atoms']:
+            r = rng.random()
+            if r < 0.2:
+                a['mass'] = 0.0
+            elif r < 0.4:
+                a['mass'] = round(rng.uniform(10.0, 120.0), 2)
+    return case
 
 
 def top_of(case):
@@ -130,8 +145,20 @@ def options(case, wd):
 
 
 def total_mass(case):
+    """the mass given for the atom, else the mass of its type"""
     by = {mt['name']: mt for mt in case['moltypes']}
     return sum(a['mass'] for name, n in case['molecules'] for _ in range(n) for a in by[name]['atoms'])
+
+
+def mass_pairs(case):
+    by = {mt['name']: mt for mt in case['moltypes']}
+    first = case['moltypes'][0]['name'] if case.get('omit_mass') else None
+    out = []
+    for name, n in case['molecules']:
+        for _ in range(n):
+            for a in by[name]['atoms']:
+                out.append((None if name == first else a['mass'], systems.ATOMTYPES[a['atype']][1]))
+    return out
 
 
 def run_case(case, timeout=90):
@@ -197,7 +224,8 @@ def coq_case(case, facts):
     def b3(b):
         return 'None' if b is None else f"(Some ({flit(b[0])}, {flit(b[1])}, {flit(b[2])}))"
     dens = 'None' if facts['dens'] is None else f"(Some {flit(facts['dens'])})"
-    return f"run_case {tys_txt} {ent_txt} {b3(facts['cli'])} {b3(facts['tbox'])} {dens} {flit(total_mass(case))}"
+    masses = '[' + '; '.join(f"({'None' if e is None else '(Some ' + flit(e) + ')'}, Some {flit(t)})" for e, t in mass_pairs(case)) + ']'
+    return f"run_case {tys_txt} {ent_txt} {b3(facts['cli'])} {b3(facts['tbox'])} {dens} {masses}"
 
 
 def run(ctx):
